@@ -72,6 +72,10 @@ _built = {}
 
 def build_w2c2(outdir, flags=("-O1",), defs=None, cc="gcc", name="w2c2", ldflags=()):
     """Compile the translator from the working tree with plain cc (no cmake)."""
+    if os.environ.get("VERIF_GCOV") and cc == "gcc":
+        # coverage survey (tools/coverage.sh): objects and counters live in a directory that outlasts the check
+        outdir = os.path.join(os.environ["VERIF_GCOV"], "w2c2-%s-%s" % (name, hashlib.sha1(repr((flags, defs)).encode()).hexdigest()[:8]))
+        flags = tuple(flags) + ("--coverage",)
     key = (outdir, tuple(flags), tuple(defs or W2C2_DEFS), cc, name)
     if key in _built:
         return _built[key]
